@@ -560,6 +560,14 @@ func (fr *Frame) execBlockFrom(b *ssa.BasicBlock, ci *cfgInfo, start int) {
 			fr.rets = append(fr.rets, retRec{fr.cur, fr.st, rs})
 			return
 		case *ssa.Panic:
+			if isRangeFuncProtocolPanic(in) {
+				// the compiler's guard in a range-over-func body ("yield function called after range loop exit"): only an
+				// iterator that keeps calling yield after it returned false gets here; the iterators this code ranges
+				// over are under contract (all-or-stopped) or library iterators
+				fr.R.Trusted["range-over-func: an iterator does not call yield again after yield returned false (the compiler's guard panic is unreachable)"] = true
+				fr.cur = False
+				return
+			}
 			fr.panicAt(in.Pos(), "explicit", True)
 			return
 		default:
@@ -597,4 +605,22 @@ func (fr *Frame) panicAllowed() Term {
 		ds = append(ds, ev)
 	}
 	return Or(ds...)
+}
+
+// isRangeFuncProtocolPanic: a panic the compiler inserted into the synthetic body of a range-over-func loop.
+func isRangeFuncProtocolPanic(in *ssa.Panic) bool {
+	fn := in.Parent()
+	if fn == nil || fn.Synthetic != "range-over-func yield" {
+		return false
+	}
+	v := in.X
+	if mi, ok := v.(*ssa.MakeInterface); ok {
+		v = mi.X
+	}
+	c, ok := v.(*ssa.Const)
+	if !ok || c.Value == nil {
+		return false
+	}
+	s := c.Value.ExactString()
+	return strings.Contains(s, "range loop exit") || strings.Contains(s, "range function")
 }
